@@ -10,6 +10,7 @@ from collections import Counter
 
 from .. import history as H
 from ..common import cedge, dc, dedupe, permuted
+from ..common import nodes_with_metadata
 from ..engine import Clause, Violation
 
 ASSUMPTIONS = [
@@ -214,7 +215,7 @@ def observe(h, universe, probes, real):
     o["measures.degree"] = mdeg
     o["is_isolated"] = iso
     o["node_meta"] = nmeta
-    o["nodes_meta"] = {k: dc(v) for k, v in h.get_nodes(metadata=True).items()}
+    o["nodes_meta"] = {k: dc(v) for k, v in nodes_with_metadata(h).items()}
     o["degree_sequence"] = {None: dict(h.degree_sequence())}
     o["degree_distribution"] = {None: dict(h.degree_distribution())}
     o["measures.degree_sequence"] = dict(m_degree_sequence(h))
